@@ -5,19 +5,41 @@ chunksize, keep exactly the same rows in the same order.  repartition(npartition
 repartition(divisions=d) yields exactly divisions d.
 
 Monitor.  Every case builds a pandas frame, a SOURCE dask frame from a partitioning description and ONE target
-(``repartition(npartitions=n)``, ``repartition(divisions=d, force=f)``, ``repartition(partition_size=s)``,
-``repartition(freq=q)``, or ``from_pandas(npartitions|chunksize, sort)`` directly).  The partitions of the result are
-observed with ``dask.compute(*r.to_delayed())`` (graph view, one graph for all partitions); in a third of the random
-cases ``r.compute()`` is observed as well.  Demanded:
+(``repartition(npartitions=n | callable)``, ``repartition(divisions=d, force=f)`` -- list or tuple, as method or as
+``dd.repartition(frame, d, force=f)`` --, ``dd.repartition(<pandas object>, d)``, ``repartition(partition_size=s)``,
+``repartition(freq=q)`` -- alias string or ``pd.Timedelta`` --, or ``from_pandas(npartitions|chunksize, sort)`` directly).
+The partitions of the result are observed with ``dask.compute(*r.to_delayed())`` (graph view, one graph for all
+partitions); in a third of the random cases ``r.compute()`` is observed as well.  Demanded:
 
 * rows: ``concat(partitions)`` (and ``compute()``) equals the pandas frame, row for row in the same order, index
   included (``frames.compare(ordered=True)``: columns, dtypes, index values and name, values);
-* ``npartitions=n``: ``r.npartitions == n`` and the graph really has n partitions;
+* ``npartitions=n``: ``r.npartitions == n`` and the graph really has n partitions (a callable is applied to the source's
+  partition count by the harness, too);
 * ``divisions=d``: ``r.divisions == tuple(d)``, the graph has ``len(d) - 1`` partitions, and partition i holds only
   index values of ``[d[i], d[i+1])`` (last closed) — the requested layout (``frames.divisions_violation``);
 * every other target that reports known divisions: ``frames.divisions_violation`` is None (divisions monitor, labelled
   separately ``...:divisions-monitor:<kind>``; when the partition-count oracle already fired for the same case the
   monitor's ``npartitions-vs-divisions`` is not reported twice).
+
+Parameter audit (round 3).  Added input classes, each with a counter and a floor: ``npartitions`` as a callable;
+``force=True`` next to ``npartitions`` / ``partition_size`` (no effect on rows); divisions as tuple / through the
+module-level function / on a pandas object / float-valued between integer index values / INNER divisions that lie
+entirely below or beyond the data (``beyond_inner``); ``freq`` as ``pd.Timedelta`` and calendar offsets (``ME``, ``QE-FEB``,
+``2ME``, ``SME``, ``W``, ``W-WED``, ``YE``: period ends are mapped to period starts, ``ceil`` does not exist for them) on an
+index that spans months (``datetime_days``); frames of 100..400 rows for ``partition_size`` so that kB sizes split
+partitions; a FILTER UNDER the repartition (``pre``: the source is ``src[src.a >= 2]`` / ``src[src.e]`` / a filter that keeps
+nothing -- partitions emptied behind known divisions) and a filter / column selection ABOVE it (``post``: the optimizer
+pushes both through ``Repartition``); ``from_pandas(sort=True)`` on an unsorted index (rows compared as a multiset, the
+result must be sorted by the index as documented); STATE: after a refused ``repartition(divisions=...)`` the same source
+is repartitioned again and compared (``after_error_followup``).
+
+Sibling facet (vf/mon/siblings.py).  Every random case is built a second time on the SAME source with ONE parameter
+changed (another ``npartitions``, one division more / less, ``force`` flipped, another ``partition_size``, another ``freq``,
+another ``npartitions`` / ``chunksize`` / ``sort`` of ``from_pandas``).  Two such collections must not share output keys while
+their partitions differ (``<op>:<param>-not-in-name:siblings-share-keys``), and computed in ONE graph each must give what it
+gives alone (``<op>:<param>:differs-when-computed-with-sibling``; always run for ``partition_size`` -- its split layer has an
+own name --, for a seeded 35 % otherwise).  The joint computation alternates between ``dask.compute`` of the partition
+lists (``to_delayed``) and ``dask.compute(a, b)`` of the collections.
 
 Requests that dask documents as errors may raise ``ValueError`` and are then counted as ``expected_error`` (divisions
 on a source with unknown divisions; outer divisions different from the source's without ``force``; with ``force`` a
@@ -52,6 +74,10 @@ Calibration (unchanged tree)
 * ``from_pandas(npartitions=n)`` is documented to give fewer partitions when the index has too few distinct values;
   the statement demands a partition count of ``repartition(npartitions=n)`` only.
 * ``repartition(freq=...)`` is documented for a datetime index with known divisions; only generated there.
+* ``dd.repartition(<pandas object>, d)`` silently drops rows outside ``d``: only division vectors that cover the index
+  are generated for it (the statement's domain is "within and beyond the data range").
+* sibling values are lists of partitions compared with ``frames.compare(ordered=True)``; siblings whose partitions are
+  equal may share keys (``force`` flipped on unchanged outer divisions).
 * the docstring of ``repartition`` calls ``npartitions`` "approximate ... may be slightly lower"; the statement (fixed)
   says n partitions, so a lower count is reported (PENDING, same mechanism as C41's
   ``repartition:npartitions:more:numeric-or-datetime-index:graph:npartitions-vs-divisions``).
@@ -63,18 +89,21 @@ import random
 import warnings
 
 PROP = "C44"
-RULE = ("case = (frame seed, rows 0..40, index kind, source partitioning, one target); sources: from_pandas "
+RULE = ("case = (frame seed, rows 0..40 [100..400 for a third of the partition_size targets], index kind, source partitioning "
+        "[optionally under a filter], one target [optionally under a filter / column selection]) + one sibling target that "
+        "differs in one parameter, computed in the same graph; sources: from_pandas "
         "npartitions|chunksize, from_map/from_delayed row slices incl. empty partitions (unknown divisions), cleared "
         "divisions, from_map with a known division vector over index/between/beyond values (known divisions with empty "
         "partitions); targets: repartition npartitions (above, below, equal, above the row count), divisions (inside, "
-        "beyond, not covering; force on/off; repeated last division), partition_size, freq, and from_pandas "
-        "npartitions|chunksize directly.  Complete sub-space first (see EXHAUSTIVE_SPACE).  non-trivial = frame has >= 2 "
+        "beyond, inner divisions outside the data, not covering; force on/off; repeated last division; list/tuple, method/"
+        "function, pandas object, float values on an integer index), npartitions as callable, partition_size, freq "
+        "(aliases, calendar offsets, Timedelta), and from_pandas npartitions|chunksize directly (sort on/off).  Complete sub-space first (see EXHAUSTIVE_SPACE).  non-trivial = frame has >= 2 "
         "rows and source or result has >= 2 partitions; distinct = distinct case descriptions")
 ASSUMPTIONS = [
     "pandas defines row identity/order; vf.gen.frames.compare is the comparison discipline",
     "partitions are what dask.compute(*r.to_delayed()) returns; sync scheduler; pyarrow import stub (pandas-backed strings)",
 ]
-BUDGET = {"quick": 60, "thorough": 540}
+BUDGET = {"quick": 90, "thorough": 720}
 FLOORS = {
     "quick": {"evaluations": 1950, "distinct_nontrivial": 1600,
               "counters": {"results_checked": 1700, "partitions_observed": 10000, "npartitions_checked": 950,
@@ -179,11 +208,13 @@ def cases(tier, seed):
         kind = rng.choice(INDEX_KINDS)
         c = {"fs": rng.randrange(2 ** 31), "nrows": nrows, "index": kind,
              "cols": rng.choice(("basic", "basic", "wide")), "series": rng.random() < 0.08}
-        tk = rng.choice(("npartitions",) * 5 + ("divisions",) * 6 + ("partition_size",) * 3 + ("from_pandas",) * 2
-                        + ("pandas_divisions",) + (("freq",) * 4 if kind in DATETIME_KINDS else ()))
+        tk = rng.choice(("npartitions",) * 5 + ("divisions",) * 6 + ("partition_size",) * 3 + ("from_pandas",) * 3
+                        + ("pandas_divisions",) + (("freq",) * 9 if kind in DATETIME_KINDS else ()))
         if tk == "from_pandas":
+            if rng.random() < 0.25:
+                c["index"] = kind = "unsorted"
             c["t"] = {"k": tk, "by": rng.choice(("npartitions", "chunksize")), "n": rng.randint(1, max(2, nrows + 3)),
-                      "sort": rng.random() < 0.7, "sort_unsorted": rng.random() < 0.5}
+                      "sort": rng.random() < 0.7, "sort_unsorted": rng.random() < 0.8}
             yield c
             continue
         if tk == "pandas_divisions":
